@@ -39,6 +39,8 @@ type corpus struct {
 		P      [3]float64 `json:"p"` // cartesian
 	} `json:"points"`
 	Mating  []mateCase `json:"mating"`
+	// profile-plane points of ISOThread(radius, pitch, external) judged by the exact crossing number (levels.go)
+	Profile2D []prof2dCase `json:"profile2d"`
 	BoltNut []struct {
 		Thread string     `json:"thread"`
 		Tol    float64    `json:"tol"`
@@ -192,6 +194,7 @@ func unmap(rng *Rng, g tgeo, starts int, halfLen float64, qx, qy float64, tapere
 
 func check(c *Ctx, r *Report) error {
 	rng := NewRng(c.Seed)
+	lrng := NewRng(c.Seed ^ 0x6c6576656c73) // the vertex-level strata (levels.go) draw from their own stream
 	var cp corpus
 	if b, err := os.ReadFile(filepath.Join(c.Verif, "corpus", "C18.json")); err == nil {
 		if err := json.Unmarshal(b, &cp); err != nil {
@@ -518,6 +521,7 @@ func check(c *Ctx, r *Report) error {
 				continue
 			}
 			// profile-plane points: near the outline (flank, crest, root), on the strip edges, at vertex heights
+			pgm := geomOf(prof, rad, g.pitch, ext)
 			var pts []string
 			np := TierN(c.Tier, 28, 60, 40)
 			for k := 0; k < np; k++ {
@@ -530,6 +534,9 @@ func check(c *Ctx, r *Report) error {
 					q = v2.Vec{X: g.pitch * rng.Uniform(-0.5, 0.5), Y: rad - g.h*rng.Uniform(0.55, 0.9)}
 				case 2: // exactly at vertex heights / abscissae (dyadic fractions of the pitch)
 					q = v2.Vec{X: g.pitch * float64(rng.Range(-8, 8)) / 16, Y: rad - g.h*float64(rng.Range(0, 8))/8}
+					if k%2 == 0 { // bit for bit level with a vertex of this profile (apex, flats, fillet facets), see levels.go
+						q.Y = pgm.ys[lrng.Intn(len(pgm.ys))]
+					}
 				case 3: // strip edges
 					x := g.pitch / 2
 					if rng.Bool() {
@@ -707,8 +714,43 @@ func check(c *Ctx, r *Report) error {
 		}
 	}
 
+	// ------------------------------------------------------------ 5c. the profile itself, level with its vertices
+	// Every row x the radii the mating strata use (external radius - tol, internal radius + tol): the 2D profile on a sparse
+	// grid of (vertex ordinates, +-1 ulp, quadtree cut ordinates) x (vertex abscissae, midpoints, cuts, beyond both ends)
+	// and transposed, sign judged by the exact crossing number, magnitude by the distance to the segments (levels.go).
+	prof2d := func(stratum string, radius, pitch float64, ext bool, pts []v2.Vec, perLevel int) {
+		prof, err := sdf.ISOThread(radius, pitch, ext)
+		if err != nil {
+			return
+		}
+		pg := geomOf(prof, radius, pitch, ext)
+		for _, q := range pts {
+			if !judge2D(r, stratum, prof, pg, q, radius+pitch) {
+				return
+			}
+		}
+		if perLevel > 0 {
+			levels2D(r, lrng, stratum, prof, pg, perLevel)
+		}
+	}
+	for _, e := range cp.Profile2D {
+		prof2d("profile2d/corpus", e.Radius, e.Pitch, e.External, []v2.Vec{{X: e.Q[0], Y: e.Q[1]}}, 0)
+	}
+	for _, g := range geos {
+		for ti, tol := range []float64{0, 0.01 * g.pitch, 0.25 * g.pitch, g.pitch} {
+			tolE := math.Min(tol, 0.5*(g.r-g.h))
+			prof2d(fmt.Sprintf("profile2d/ext/tol%d", ti), g.r-tolE, g.pitch, true, nil, TierN(c.Tier, 6, 16, 10))
+			prof2d(fmt.Sprintf("profile2d/int/tol%d", ti), g.r+tol, g.pitch, false, nil, TierN(c.Tier, 6, 16, 10))
+		}
+	}
+
 	// ------------------------------------------------------------ 6. mating
-	mate := func(stratum string, g tgeo, tolE, tolI float64, starts int, pts []v3.Vec, npts int) {
+	// Every point goes through (a) the mating oracle and (b) the sign oracle of levels.go: the sign of each of the two
+	// screws against the exact crossing number of the profile-plane point the screw maps the point to (recorded by a
+	// probe screw with the same mapping).  levelReps > 0 adds the points whose distance from the axis is bit for bit
+	// an ordinate of a vertex of either profile (and one ulp either side), levelReps placements each.
+	levelHits := map[string]int{}
+	mate := func(stratum string, g tgeo, tolE, tolI float64, starts int, pts []v3.Vec, npts int, levelReps int) {
 		re, ri := g.r-tolE, g.r+tolI
 		pe, err1 := sdf.ISOThread(re, g.pitch, true)
 		pi, err2 := sdf.ISOThread(ri, g.pitch, false)
@@ -726,11 +768,22 @@ func check(c *Ctx, r *Report) error {
 		scale := g.r + g.pitch
 		delta := 1e-9 * scale
 		worst := math.Inf(-1)
-		for k := 0; k < npts+len(pts); k++ {
+		ge, gi := geomOf(pe, re, g.pitch, true), geomOf(pi, ri, g.pitch, false)
+		levelHits["spec-from-"+ge.specFrom]++
+		levelHits["spec-from-"+gi.specFrom]++
+		pr := &probe{}
+		ps, errp := sdf.Screw3D(pr, L, g.taper, g.pitch, starts) // the mapping of se and si (the length does not enter it)
+		var lv []levelPt
+		if levelReps > 0 {
+			lv = levelPoints3D(lrng, ge, gi, g.taper, g.pitch, 0.45*L, levelReps)
+		}
+		for k := 0; k < npts+len(pts)+len(lv); k++ {
 			var p v3.Vec
+			st := stratum
+			var lp *levelPt
 			if k < len(pts) {
 				p = pts[k]
-			} else {
+			} else if k < len(pts)+npts {
 				// profile-plane point near the common outline, mapped back onto the helix
 				qx := g.pitch * rng.Uniform(-0.5, 0.5)
 				if k%5 == 0 {
@@ -741,17 +794,39 @@ func check(c *Ctx, r *Report) error {
 					qy = re + g.h/8 - 2*g.h*math.Abs(qx)/g.pitch + g.h*rng.Uniform(-0.01, 0.01)
 				}
 				p, _ = unmap(rng, g, starts, L/2, qx, qy, g.taper != 0)
+			} else {
+				lp = &lv[k-len(pts)-npts]
+				p = lp.p
+			}
+			var p0 v2.Vec
+			if errp == nil {
+				ps.Evaluate(p)
+				p0 = pr.last
+			}
+			if lp != nil {
+				hit := "near"
+				if errp == nil && p0.Y == lp.level {
+					hit = "exact"
+				}
+				st = stratum + "/" + lp.class + "/" + hit
+				levelHits["3d-"+hit]++
 			}
 			a, b := se.Evaluate(p), nut.Evaluate(p)
 			key := fmt.Sprintf("mate:%s,%x,%x,%d|%s", g.name, tolE, tolI, starts, pkey(p))
-			r.Case(stratum, key, true)
+			r.Case(st, key, true)
 			if m := math.Min(-a, -b); m > worst {
 				worst = m
 			}
+			in := mateCase{Thread: g.name, TolExt: tolE, TolInt: tolI, Starts: starts, P: [3]float64{p.X, p.Y, p.Z}}
 			if a < -delta && b < -delta {
-				r.Violate(key, fmt.Sprintf("%s (external radius -%v, internal radius +%v, starts %d): the point %v is %v inside the external thread and %v inside the material of the nut", g.name, tolE, tolI, starts, p, -a, -b),
-					mateCase{Thread: g.name, TolExt: tolE, TolInt: tolI, Starts: starts, P: [3]float64{p.X, p.Y, p.Z}})
+				r.Violate(key, fmt.Sprintf("%s (external radius -%v, internal radius +%v, starts %d): the point %v (distance from the axis %v) is %v inside the external thread and %v inside the material of the nut", g.name, tolE, tolI, starts, p, math.Sqrt(p.X*p.X+p.Y*p.Y), -a, -b), in)
 				return
+			}
+			if errp == nil {
+				who := fmt.Sprintf("%s (external radius -%v, internal radius +%v, starts %d)", g.name, tolE, tolI, starts)
+				if !signOracle(r, key, who, se, ge, p, p0, L, scale, in) || !signOracle(r, key, who, si, gi, p, p0, L/2, scale, in) {
+					return
+				}
 			}
 		}
 		if id%5 == 0 {
@@ -763,9 +838,10 @@ func check(c *Ctx, r *Report) error {
 		if err != nil {
 			continue
 		}
-		mate("mating/corpus", geo(t), e.TolExt, e.TolInt, e.Starts, []v3.Vec{{X: e.P[0], Y: e.P[1], Z: e.P[2]}}, 0)
+		mate("mating/corpus", geo(t), e.TolExt, e.TolInt, e.Starts, []v3.Vec{{X: e.P[0], Y: e.P[1], Z: e.P[2]}}, 0, 0)
 	}
 	nm := TierN(c.Tier, 120, 2000, 400)
+	lreps := TierN(c.Tier, 3, 8, 5) // placements per (vertex ordinate, -1/0/+1 ulp)
 	for _, g := range geos { // every row
 		tols := []float64{0, 0.01 * g.pitch, 0.25 * g.pitch, g.pitch}
 		for ti, tol := range tols {
@@ -781,13 +857,15 @@ func check(c *Ctx, r *Report) error {
 			if g.taper != 0 {
 				tp = "tapered"
 			}
-			mate(fmt.Sprintf("mating/%s/tol%d", tp, ti), g, tolE, tol, starts, nil, nm)
+			mate(fmt.Sprintf("mating/%s/tol%d", tp, ti), g, tolE, tol, starts, nil, nm, lreps)
 			if ti == 1 { // tolerance on one side only
-				mate(fmt.Sprintf("mating/%s/ext-only", tp), g, tolE, 0, 1, nil, nm/2)
-				mate(fmt.Sprintf("mating/%s/int-only", tp), g, 0, tol, 1, nil, nm/2)
+				mate(fmt.Sprintf("mating/%s/ext-only", tp), g, tolE, 0, 1, nil, nm/2, 1)
+				mate(fmt.Sprintf("mating/%s/int-only", tp), g, 0, tol, 1, nil, nm/2, 1)
 			}
 		}
 	}
+
+	r.Coverage["vertex_levels"] = levelHits
 
 	// ------------------------------------------------------------ 7. obj.Bolt / obj.Nut
 	// tol: the bolt's tolerance, tolN: the nut's (the two generators take them independently)
@@ -810,10 +888,33 @@ func check(c *Ctx, r *Report) error {
 		placed := sdf.Transform3D(nut, sdf.Translate3d(v3.Vec{X: 0, Y: 0, Z: z0}))
 		scale := g.r + g.pitch
 		delta := 1e-9 * scale
-		for k := 0; k < npts+len(pts); k++ {
+		// points of the nut whose distance from the axis is bit for bit an ordinate of a vertex of the bolt's / the nut's
+		// thread profile (levels.go; the profiles rebuilt with the arguments obj.Bolt / obj.Nut use), one ulp either side too
+		var lv []levelPt
+		if npts > 0 {
+			pe, err1 := sdf.ISOThread(t.Radius-tol, t.Pitch, true)
+			pi, err2 := sdf.ISOThread(t.Radius+tolN, t.Pitch, false)
+			if err1 == nil && err2 == nil {
+				lv = levelPoints3D(lrng, geomOf(pe, t.Radius-tol, t.Pitch, true), geomOf(pi, t.Radius+tolN, t.Pitch, false), 0, t.Pitch, 0.45*nhh, 1)
+				for i := range lv {
+					// the bolt's thread is centred at threadOffset, the nut at z0; tapered: aim at the bolt's cone
+					zl := lv[i].p.Z + float64(n)*g.pitch
+					q := levelPoint(lrng, lv[i].level, g.taper, zl, 6)
+					if g.taper == 0 {
+						q = lv[i].p
+					}
+					lv[i].p = v3.Vec{X: q.X, Y: q.Y, Z: threadOffset + zl}
+				}
+			}
+		}
+		for k := 0; k < npts+len(pts)+len(lv); k++ {
 			var p v3.Vec
+			st := stratum
 			if k < len(pts) {
 				p = pts[k]
+			} else if k >= len(pts)+npts {
+				p = lv[k-len(pts)-npts].p
+				st = stratum + "/" + lv[k-len(pts)-npts].class
 			} else {
 				rho := g.r + math.Max(tol, tolN) - g.h*rng.Uniform(-0.3, 1.0)
 				switch k % 6 {
@@ -829,9 +930,9 @@ func check(c *Ctx, r *Report) error {
 			if tolN != tol {
 				key = fmt.Sprintf("boltnut:%s,%x/%x,%d|%s", g.name, tol, tolN, n, pkey(p))
 			}
-			r.Case(stratum, key, true)
+			r.Case(st, key, true)
 			if a < -delta && b < -delta {
-				r.Violate(key, fmt.Sprintf("obj.Bolt and obj.Nut for %s (bolt tolerance %v, nut tolerance %v, nut %d pitches from the middle of the thread): the point %v is %v inside the bolt and %v inside the nut", g.name, tol, tolN, n, p, -a, -b),
+				r.Violate(key, fmt.Sprintf("obj.Bolt and obj.Nut for %s (bolt tolerance %v, nut tolerance %v, nut %d pitches from the middle of the thread): the point %v (distance from the axis %v) is %v inside the bolt and %v inside the nut", g.name, tol, tolN, n, p, math.Sqrt(p.X*p.X+p.Y*p.Y), -a, -b),
 					map[string]interface{}{"thread": g.name, "tol": tol, "tol_nut": tolN, "shift": n, "p": []float64{p.X, p.Y, p.Z}})
 				return
 			}
